@@ -240,8 +240,29 @@ enum Tk {
     Mi,
     Ss,
     L(char),
+    Mmmm,
+    Ddd,
+    Dddd,
+    H12,
+    Hh12,
+    Ampm,
 }
 use Tk::*;
+const MONTHS: [&str; 12] =
+    ["January", "February", "March", "April", "May", "June", "July", "August", "September", "October", "November", "December"];
+const DAYS: [&str; 7] = ["Sunday", "Monday", "Tuesday", "Wednesday", "Thursday", "Friday", "Saturday"];
+/// 0 = Sunday; 1970-01-01 was a Thursday (the harness's own calendar)
+fn weekday_of(y: i64, m: i64, d: i64) -> usize {
+    ((day_number(y, m, d) - day_number(1970, 1, 1) + 4).rem_euclid(7)) as usize
+}
+/// the hour of the 12-hour clock: 0 and 12 o'clock are written 12
+fn hour12(h: i64) -> i64 {
+    if h % 12 == 0 {
+        12
+    } else {
+        h % 12
+    }
+}
 const MON3: [&str; 12] = ["Jan", "Feb", "Mar", "Apr", "May", "Jun", "Jul", "Aug", "Sep", "Oct", "Nov", "Dec"];
 fn tk_text(t: &Tk) -> String {
     match t {
@@ -252,10 +273,14 @@ fn tk_text(t: &Tk) -> String {
         M => "m".into(),
         Dd => "dd".into(),
         D => "d".into(),
-        Hh => "hh".into(),
-        H => "h".into(),
+        Hh | Hh12 => "hh".into(),
+        H | H12 => "h".into(),
         Ss => "ss".into(),
         L(c) => c.to_string(),
+        Mmmm => "mmmm".into(),
+        Ddd => "ddd".into(),
+        Dddd => "dddd".into(),
+        Ampm => "AM/PM".into(),
     }
 }
 /// the text a token stands for (independent of the crate and of chrono)
@@ -274,11 +299,18 @@ fn tk_show(t: &Tk, dt: &Dt) -> String {
         Mi => format!("{:02}", mi),
         Ss => format!("{:02}", s),
         L(c) => c.to_string(),
+        Mmmm => MONTHS[(m - 1) as usize].into(),
+        Ddd => DAYS[weekday_of(y, m, d)][0..3].into(),
+        Dddd => DAYS[weekday_of(y, m, d)].into(),
+        H12 => format!("{}", hour12(h)),
+        Hh12 => format!("{:02}", hour12(h)),
+        // Excel writes the marker in capitals
+        Ampm => (if h < 12 { "AM" } else { "PM" }).into(),
     }
 }
 /// The codes of `Umya.Thm.C18.C18_simple_codes` (same order, same token lists): every one is sent through
 /// `get_formatted_value` on the day and second streams and compared with the token-by-token text.
-const SIMPLE_CODES: [(&str, &[Tk]); 18] = [
+const SIMPLE_CODES: [(&str, &[Tk]); 27] = [
     ("yyyy-mm-dd", &[Yyyy, L('-'), Mm, L('-'), Dd]),
     ("yyyy-mm-dd hh:mm:ss", &[Yyyy, L('-'), Mm, L('-'), Dd, L(' '), Hh, L(':'), Mi, L(':'), Ss]),
     ("dd/mm/yyyy", &[Dd, L('/'), Mm, L('/'), Yyyy]),
@@ -297,7 +329,134 @@ const SIMPLE_CODES: [(&str, &[Tk]); 18] = [
     ("mm-dd-yy", &[Mm, L('-'), Dd, L('-'), Yy]),
     ("m/d/yy h:mm", &[M, L('/'), D, L('/'), Yy, L(' '), H, L(':'), Mi]),
     ("dd.mm.yyyy, hh:mm", &[Dd, L('.'), Mm, L('.'), Yyyy, L(','), L(' '), Hh, L(':'), Mi]),
+    // `C18_simple_codes_names` (same order): built-in 18, 19, month and weekday names
+    ("h:mm AM/PM", &[H12, L(':'), Mi, L(' '), Ampm]),
+    ("h:mm:ss AM/PM", &[H12, L(':'), Mi, L(':'), Ss, L(' '), Ampm]),
+    ("hh:mm AM/PM", &[Hh12, L(':'), Mi, L(' '), Ampm]),
+    ("dddd, mmmm d, yyyy", &[Dddd, L(','), L(' '), Mmmm, L(' '), D, L(','), L(' '), Yyyy]),
+    ("ddd d mmm yyyy", &[Ddd, L(' '), D, L(' '), Mmm, L(' '), Yyyy]),
+    ("mmmm yyyy", &[Mmmm, L(' '), Yyyy]),
+    ("d mmmm yyyy", &[D, L(' '), Mmmm, L(' '), Yyyy]),
+    ("d-mmm-yy h:mm AM/PM", &[D, L('-'), Mmm, L('-'), Yy, L(' '), H12, L(':'), Mi, L(' '), Ampm]),
+    ("ddd hh:mm", &[Ddd, L(' '), Hh, L(':'), Mi]),
 ];
+
+// ---- the syntactic class `Umya.Thm.C18.SimpleSyntax` (mirror of `Umya.Lemmas.DateSyntax.vocab` / `simpleSyntax`)
+const YEAR_T: [Tk; 2] = [Yyyy, Yy];
+const MONTH_T: [Tk; 4] = [Mmmm, Mmm, Mm, M];
+const DAY_T: [Tk; 2] = [Dd, D];
+fn hour_t(pm: bool) -> [Tk; 2] {
+    if pm {
+        [H12, Hh12]
+    } else {
+        [H, Hh]
+    }
+}
+fn join2(c: char, a: &[Tk], b: &[Tk], out: &mut Vec<Vec<Tk>>) {
+    for x in a {
+        for y in b {
+            out.push(vec![*x, L(c), *y]);
+        }
+    }
+}
+fn join3(c: char, a: &[Tk], b: &[Tk], d: &[Tk], out: &mut Vec<Vec<Tk>>) {
+    for x in a {
+        for y in b {
+            for z in d {
+                out.push(vec![*x, L(c), *y, L(c), *z]);
+            }
+        }
+    }
+}
+/// the words of the vocabulary for the clock mode (`pm` = the code has an `AM/PM` marker)
+fn vocab(pm: bool) -> Vec<Vec<Tk>> {
+    let mut v: Vec<Vec<Tk>> = vec![vec![]];
+    for t in YEAR_T.iter().chain(MONTH_T.iter()).chain(DAY_T.iter()).chain([Dddd, Ddd, Ss].iter()).chain(hour_t(pm).iter()) {
+        v.push(vec![*t]);
+    }
+    if pm {
+        v.push(vec![Ampm]);
+    }
+    for h in hour_t(pm) {
+        v.push(vec![h, L(':'), Mi]);
+        v.push(vec![h, L(':'), Mi, L(':'), Ss]);
+    }
+    v.push(vec![Mi, L(':'), Ss]);
+    for c in ['/', '.'] {
+        join2(c, &YEAR_T, &MONTH_T, &mut v);
+        join2(c, &MONTH_T, &YEAR_T, &mut v);
+        join2(c, &MONTH_T, &DAY_T, &mut v);
+        join2(c, &DAY_T, &MONTH_T, &mut v);
+        join3(c, &YEAR_T, &MONTH_T, &DAY_T, &mut v);
+        join3(c, &DAY_T, &MONTH_T, &YEAR_T, &mut v);
+        join3(c, &MONTH_T, &DAY_T, &YEAR_T, &mut v);
+    }
+    v
+}
+fn is_field(t: &Tk) -> bool {
+    !matches!(t, L(_) | Ampm)
+}
+/// reads a format code as a token list of the syntactic class: cut at `-` `,` blank, every piece a word of
+/// the vocabulary (looked up by its text; no two words of one mode spell the same), one field at least
+fn syntax_tokens(fmt: &str) -> Option<Vec<Tk>> {
+    let pm = fmt.contains("AM/PM");
+    let words = vocab(pm);
+    let mut toks: Vec<Tk> = vec![];
+    let mut piece = String::new();
+    let flush = |piece: &mut String, toks: &mut Vec<Tk>| -> bool {
+        let hit: Vec<&Vec<Tk>> = words.iter().filter(|w| w.iter().map(tk_text).collect::<String>() == *piece).collect();
+        if hit.len() != 1 {
+            return false;
+        }
+        toks.extend(hit[0].iter().copied());
+        piece.clear();
+        true
+    };
+    for ch in fmt.chars() {
+        if ch == '-' || ch == ',' || ch == ' ' {
+            if !flush(&mut piece, &mut toks) {
+                return None;
+            }
+            toks.push(L(ch));
+        } else {
+            piece.push(ch);
+        }
+    }
+    if !flush(&mut piece, &mut toks) {
+        return None;
+    }
+    if toks.iter().any(is_field) {
+        Some(toks)
+    } else {
+        None
+    }
+}
+/// a random member of the syntactic class: 1..=6 words joined by one or two of `-` `,` blank
+fn random_syntax_code(rng: &mut Rng) -> String {
+    loop {
+        let pm = rng.chance(1, 3);
+        let words = vocab(pm);
+        let n = 1 + rng.below(6) as usize;
+        let mut toks: Vec<Tk> = vec![];
+        for i in 0..n {
+            if i > 0 {
+                toks.push(L(*rng.pick(&['-', ',', ' ', ' '])));
+                if rng.chance(1, 5) {
+                    toks.push(L(' '));
+                }
+            }
+            toks.extend(rng.pick(&words).iter().copied());
+        }
+        if pm {
+            toks.push(L(' '));
+            toks.push(Ampm);
+        }
+        let text: String = toks.iter().map(tk_text).collect();
+        if toks.iter().any(is_field) && syntax_tokens(&text).is_some() {
+            return text;
+        }
+    }
+}
 
 /// formats whose expected text the harness knows how to build itself: the `SIMPLE_CODES`, token by token
 /// (trimmed of blanks at both ends, as `to_formatted_string` does)
@@ -307,6 +466,10 @@ fn own_render(fmt: &str, t: &Dt) -> Option<String> {
             let s: String = toks.iter().map(|k| tk_show(k, t)).collect();
             return Some(s.trim_matches(' ').to_string());
         }
+    }
+    if let Some(toks) = syntax_tokens(fmt) {
+        let s: String = toks.iter().map(|k| tk_show(k, t)).collect();
+        return Some(s.trim_matches(' ').to_string());
     }
     None
 }
@@ -411,7 +574,11 @@ pub fn exec(out: &mut Out, line: &str) -> (String, bool) {
             let fmt = String::from_utf8(unhex(a[2])).unwrap();
             let bits: u64 = a[3].parse().unwrap();
             let x = f64::from_bits(bits);
-            out.count(&format!("fmt.{}", fmt));
+            if SIMPLE_CODES.iter().any(|(c, _)| *c == fmt) || FORMATS.contains(&fmt.as_str()) || syntax_tokens(&fmt).is_none() {
+                out.count(&format!("fmt.{}", fmt));
+            } else {
+                out.count("fmt.(syntax code)");
+            }
             match impl_formatted(&fmt, x) {
                 Ok(s) => {
                     let mut nt = false;
@@ -429,8 +596,25 @@ pub fn exec(out: &mut Out, line: &str) -> (String, bool) {
                             let want_t = (ey, em, ed, sec / 3600, sec % 3600 / 60, sec % 60);
                             if let Some(want) = own_render(&fmt, &want_t) {
                                 nt = true;
-                                out.count(&format!("simple.{}", fmt));
+                                if SIMPLE_CODES.iter().any(|(c, _)| *c == fmt) {
+                                    out.count(&format!("simple.{}", fmt));
+                                } else {
+                                    out.count("syntax.code");
+                                    out.count(&format!("syntax.len{:02}", fmt.len() / 8 * 8));
+                                }
+                                // `C18_ampm_case_fails` / `C18_date_display_ampm_partial`: the marker comes out
+                                // `am` / `pm` where Excel writes `AM` / `PM`; everything else of the text is compared
+                                let lowered = want.replace("AM", "am").replace("PM", "pm");
                                 if s == want {
+                                    if fmt.contains("AM/PM") {
+                                        out.count("ampm.marker-capitals");
+                                    }
+                                    out.oracle_ok();
+                                } else if fmt.contains("AM/PM") && s == lowered {
+                                    out.count("ampm.marker-lowercase");
+                                    if fmt == "h:mm AM/PM" && s == "12:00 pm" && x == 45435.5 {
+                                        out.count("ampm.witness-lowercase");
+                                    }
                                     out.oracle_ok();
                                 } else {
                                     out.oracle_fail(
@@ -450,6 +634,20 @@ pub fn exec(out: &mut Out, line: &str) -> (String, bool) {
                 Err(_) => {
                     out.count("fmt.panic");
                     ("panic".into(), false)
+                }
+            }
+        }
+        "syn" => {
+            // membership in the syntactic class: the harness's tokeniser against the Lean predicate `simpleSyntax`
+            let fmt = String::from_utf8(unhex(a[2])).unwrap();
+            match syntax_tokens(&fmt) {
+                Some(toks) => {
+                    out.count("syn.member");
+                    (format!("1 {}", toks.len()), true)
+                }
+                None => {
+                    out.count("syn.non-member");
+                    ("0".into(), false)
                 }
             }
         }
@@ -705,6 +903,46 @@ pub fn gen_each(tier: Tier, seed: u64, f: &mut dyn FnMut(String)) {
             f(format!("c18 fmt {} {}", hex(code), serial_bits_for(y, m, d, t)));
             t += step;
         }
+    }
+    // ---- random members of the syntactic class `SimpleSyntax`
+    {
+        let mut rng = Rng::new(seed ^ 0x5ca1ab1e);
+        let ncodes = if thorough { 4000 } else { 600 };
+        for i in 0..ncodes {
+            let code = random_syntax_code(&mut rng);
+            f(format!("c18 syn {}", hex(&code)));
+            // a neighbour of the code: one character replaced, removed or doubled (mostly outside the class)
+            {
+                let cs: Vec<char> = code.chars().collect();
+                let at = rng.below(cs.len() as u64) as usize;
+                let mut m: Vec<char> = cs.clone();
+                match rng.below(3) {
+                    0 => m[at] = *rng.pick(&['/', ':', '.', '-', ' ', 'm', 'd', 'y', 'h', 's']),
+                    1 => {
+                        m.remove(at);
+                    }
+                    _ => m.insert(at, cs[at]),
+                }
+                let m: String = m.into_iter().collect();
+                f(format!("c18 syn {}", hex(&m)));
+            }
+            for _ in 0..3 {
+                let k = rng.range(0, LAST_DAY_INDEX as u64) as i64;
+                let (y, m, d) = civil_of(day_number(1900, 1, 1) + k);
+                let t = match i % 4 {
+                    0 => *rng.pick(&[0i64, 1, 3599, 3600, 43199, 43200, 46799, 46800, 86399]),
+                    _ => rng.below(86400) as i64,
+                };
+                f(format!("c18 fmt {} {}", hex(&code), serial_bits_for(y, m, d, t)));
+            }
+        }
+        // the witness of `C18_ampm_case_fails`: 2024-05-23 12:00:00 under built-in 18
+        f(format!("c18 fmt {} {}", hex("h:mm AM/PM"), serial_bits_for(2024, 5, 23, 43200)));
+    }
+    for fm in FORMATS.iter().chain(SIMPLE_CODES.iter().map(|(c, _)| c)).chain(
+        ["General", "", "-", " ", "AM/PM", "h AM/PM", "hh mm", "mm", "m/m", "h:mm AM/PM ", "ss/d", "d/m.yy", "yyyymmdd", "é", "dd mm yyyy ", "h:mm:ss AM/PM AM/PM"].iter(),
+    ) {
+        f(format!("c18 syn {}", hex(fm)));
     }
     for fm in ["General", "@", "0.00", "YYYY-MM-DD", "yyyy\"x\"mm", "[h]:mm", "[$-409]d-mmm-yy", "yyyy%mm", "d\\-m", "", "s", "y", "e", "hh", "mmmmm", "a/p", "yyyy-mm-dd hh:mm:ss.s", "é", "dd mm yyyy "] {
         for x in [45435.0f64, 44349.211134259262, 1.0, 59.5, 61.0, 2958465.999988426] {
